@@ -31,6 +31,9 @@ def c13_behaviours(entries, rng, thorough=False):
                 bs.append(["stinj 0 0", "st %d" % st, "gate %s %s" % (entry, ev)])
             ev2 = " ".join(["v", "e"] + ["v"] * (len(sig) - 2))
             bs.append(["stinj 0 0", "st 0", "gate %s %s" % (entry, ev2)])
+            # distinct keys that agree in all but the last / first byte are valid and must be accepted
+            for tok in ("p", "q"):
+                bs.append(["stinj 0 0", "st 0", "gate %s %s" % (entry, " ".join([tok] + ["v"] * (len(sig) - 1)))])
     return bs
 
 
@@ -47,6 +50,9 @@ def c16_behaviours(entries, rng, thorough=False):
         ptrs = [i for i, L in enumerate(sig) if L in PTR]
         base = valid_vec(sig)
         bs.append(["gate %s %s" % (entry, " ".join(base))])
+        if "xts" in entry:
+            for tok in ("p", "q"):
+                bs.append(["gate %s %s" % (entry, " ".join([tok] + base[1:]))])
         # every non-empty subset of pointer arguments NULL; the others point into an inaccessible page
         subsets = []
         for k in range(1, len(ptrs) + 1):
